@@ -14,7 +14,8 @@ use rs_opw_kinematics::parameters::opw_kinematics::Parameters;
 use rs_opw_kinematics::rrt::RRTPlanner;
 use rs_opw_kinematics::utils::transition_costs;
 
-pub struct Cell { pub robot: KinematicsWithShape, pub q0: Joints, pub from: Joints, pub land: Pose, pub steps: Vec<Pose>, pub park: Pose, pub layout: &'static str }
+pub struct Cell { pub robot: KinematicsWithShape, pub q0: Joints, pub from: Joints, pub land: Pose, pub steps: Vec<Pose>, pub park: Pose, pub layout: &'static str,
+    pub env: Vec<(TriMesh, Isometry3<f32>)>, pub margin: f32, pub link_half: f32 }
 
 pub fn make_cell(rng: &mut Rng, layout: u64) -> Cell {
     let p = Parameters::irb2400_10();
@@ -34,6 +35,18 @@ pub fn make_cell(rng: &mut Rng, layout: u64) -> Cell {
     let meshes: [TriMesh; 6] = std::array::from_fn(|_| box_mesh(sz, sz, sz, 1));
     let mut env: Vec<CollisionBody> = Vec::new();
     let mid = p0.translation.vector + dir * hop * (nsteps as f64 - 1.0) * 0.5;
+    if layout % 7 == 6 {
+        // free space, the tool keeps its axis and rolls about it from +176 to -176 degrees between the two stroke poses:
+        // the two orientations are 8 degrees apart but their quaternions have a negative dot product
+        let roll = |deg: f64| -> UnitQuaternion<f64> { p0.rotation * UnitQuaternion::from_axis_angle(&Vector3::z_axis(), deg.to_radians()) };
+        let at = |k: f64, deg: f64| -> Pose { Isometry3::from_parts(Translation3::from(p0.translation.vector + dir * 0.05 * k), roll(deg)) };
+        let cons = Constraints::new([-3.1, -2.0, -2.5, -3.1, -2.2, -6.2], [3.1, 2.0, 1.5, 3.1, 2.2, 6.2], BY_PREV);
+        let robot = KinematicsWithShape::with_safety(p, cons, meshes, box_mesh(0.1, 0.1, 0.02, 1), Isometry3::identity(), box_mesh(0.01, 0.01, 0.02, 1), Isometry3::identity(), env,
+            SafetyDistances::standard(CheckMode::FirstCollisionOnly));
+        let land = at(0.0, 176.0);
+        let from = robot.inverse_continuing(&land, &q0).first().cloned().unwrap_or(q0);
+        return Cell { robot, q0, from, land, steps: vec![at(1.0, 176.0), at(2.0, -176.0)], park: at(3.0, -176.0), layout: "roll", env: vec![], margin: 0.0, link_half: sz };
+    }
     if layout % 5 == 4 {
         // free space, the stroke passes the wrist singularity (J5 = 0) a millimetre aside: J4/J6 have to swing within a few
         // millimetres, no linear transition within the cost limit exists, bisection runs out of depth, RRT closes the gap
@@ -42,31 +55,63 @@ pub fn make_cell(rng: &mut Rng, layout: u64) -> Cell {
         let cons = Constraints::new([-3.1, -2.0, -2.5, -3.1, -2.2, -3.1], [3.1, 2.0, 1.5, 3.1, 2.2, 3.1], BY_PREV);
         let robot = KinematicsWithShape::with_safety(p, cons, meshes, box_mesh(0.1, 0.1, 0.02, 1), Isometry3::identity(), box_mesh(0.01, 0.01, 0.02, 1), Isometry3::identity(), env,
             SafetyDistances::standard(CheckMode::FirstCollisionOnly));
-        return Cell { robot, q0, from: base_q(-0.5), land: at(-0.5), steps: vec![at(-0.35), at(0.35)], park: at(0.5), layout: "wrist" };
+        return Cell { robot, q0, from: base_q(-0.5), land: at(-0.5), steps: vec![at(-0.35), at(0.35)], park: at(0.5), layout: "wrist", env: vec![], margin: 0.0, link_half: sz };
     }
-    let (layout_name, obstacle) = match layout % 4 {
+    let near_miss = layout % 7 == 5;
+    let (layout_name, obstacle) = if near_miss {
+        // an obstacle 2 cm from the flange body along the whole stroke, with a 4 cm safety distance: every stroke pose is too close
+        ("near_miss", Some((mid + Vector3::new(0.03 + 0.04 + 0.02, 0.0, 0.0), 0.04f32)))
+    } else { match layout % 4 {
         0 => ("free", None),
         1 => ("far", Some((mid + Vector3::new(0.0, 0.0, -0.6), 0.1f32))),
         2 => ("grazing", Some((mid + Vector3::new(0.25, 0.0, 0.0), 0.08f32))),
         _ => ("blocking", Some((mid, 0.05f32))),
-    };
+    } };
+    let mut env_rec: Vec<(TriMesh, Isometry3<f32>)> = Vec::new();
     if let Some((c, h)) = obstacle {
-        env.push(CollisionBody { mesh: box_mesh(h, h, h, 2), pose: Isometry3::from_parts(Translation3::new(c.x as f32, c.y as f32, c.z as f32), UnitQuaternion::identity()) });
+        let pose = Isometry3::from_parts(Translation3::new(c.x as f32, c.y as f32, c.z as f32), UnitQuaternion::identity());
+        env.push(CollisionBody { mesh: box_mesh(h, h, h, 2), pose });
+        env_rec.push((box_mesh(h, h, h, 2), pose));
     }
+    // some cells keep a safety distance to the environment
+    let margin: f32 = if near_miss || layout % 3 == 1 { 0.04 } else { 0.0 };
     let cons = Constraints::new([-3.1, -2.0, -2.5, -3.1, -2.2, -3.1], [3.1, 2.0, 1.5, 3.1, 2.2, 3.1], BY_PREV);
-    let robot = KinematicsWithShape::with_safety(p, cons, meshes, box_mesh(0.1, 0.1, 0.02, 1), Isometry3::identity(), box_mesh(0.01, 0.01, 0.02, 1), Isometry3::identity(), env,
-        SafetyDistances::standard(CheckMode::FirstCollisionOnly));
+    let mut safety = SafetyDistances::standard(CheckMode::FirstCollisionOnly);
+    safety.to_environment = margin;
+    let robot = KinematicsWithShape::with_safety(p, cons, meshes, box_mesh(0.1, 0.1, 0.02, 1), Isometry3::identity(), box_mesh(0.01, 0.01, 0.02, 1), Isometry3::identity(), env, safety);
     let from: Joints = std::array::from_fn(|i| q0[i] + rng.range(-0.05, 0.05));
-    Cell { robot, q0, from, land, steps, park, layout: layout_name }
+    Cell { robot, q0, from, land, steps, park, layout: layout_name, env: env_rec, margin, link_half: sz }
 }
 
 pub fn planner<'a>(cell: &'a Cell, rng: &mut Rng, include: bool) -> Cartesian<'a> {
     let wrist = cell.layout == "wrist";
+    if cell.layout == "roll" {
+        return Cartesian { robot: &cell.robot, check_step_m: 0.5, check_step_rad: 1.0, max_transition_cost: 0.02, transition_coefficients: DEFAULT_TRANSITION_COSTS,
+            linear_recursion_depth: 14, rrt: RRTPlanner { step_size_joint_space: 0.05, max_try: 300, debug: false }, include_linear_interpolation: include, debug: false };
+    }
     Cartesian { robot: &cell.robot, check_step_m: if wrist { 0.5 } else { [0.01, 0.02, 0.05][rng.below(3) as usize] }, check_step_rad: if wrist { 1.0 } else { 0.05 },
         max_transition_cost: if wrist { 0.05 } else { [0.05, 0.1, 0.3][rng.below(3) as usize] }, transition_coefficients: DEFAULT_TRANSITION_COSTS,
         linear_recursion_depth: if wrist { [2usize, 4, 6][rng.below(3) as usize] } else { [0usize, 2, 6][rng.below(3) as usize] }, rrt: RRTPlanner { step_size_joint_space: 0.05, max_try: 300, debug: false },
         include_linear_interpolation: include, debug: false }
 }
+
+/// the documented transition cost, written out here: weighted sum of the joint moves
+fn ref_cost(a: &Joints, b: &Joints, coef: &Joints) -> f64 { (0..6).map(|i| (a[i] - b[i]).abs() * coef[i]).sum() }
+
+/// smallest distance between a link box (placed at the link poses the robot reports) and the environment, by parry3d directly
+pub fn env_distance(cell: &Cell, j: &Joints) -> f32 {
+    let poses = cell.robot.forward_with_joint_poses(j);
+    let link = box_mesh(cell.link_half, cell.link_half, cell.link_half, 1);
+    let mut best = f32::INFINITY;
+    for p in poses.iter() {
+        let pf: Isometry3<f32> = Isometry3::from_parts(Translation3::new(p.translation.x as f32, p.translation.y as f32, p.translation.z as f32), p.rotation.cast::<f32>());
+        for (m, ep) in &cell.env { if let Ok(d) = parry3d::query::distance(&pf, &link, ep, m) { best = best.min(d); } }
+    }
+    best
+}
+
+/// how far a rotation is from the geodesic between two rotations (0 on it)
+fn off_geodesic(a: &UnitQuaternion<f64>, b: &UnitQuaternion<f64>, w: &UnitQuaternion<f64>) -> f64 { a.angle_to(w) + w.angle_to(b) - a.angle_to(b) }
 
 fn seg_dist(p: &Vector3<f64>, a: &Vector3<f64>, b: &Vector3<f64>) -> f64 {
     let ab = b - a; let l2 = ab.norm_squared();
@@ -98,6 +143,8 @@ pub fn main(tier: &str, seed: u64, n_override: Option<u64>) {
                 // (a) collision free and within limits
                 for a in &path {
                     if cell.robot.collides(&a.joints) { fail("C12.waypoint_collides"); }
+                    // independent of the crate's collision code: no link closer to the environment than the safety distance
+                    if !cell.env.is_empty() { let d = env_distance(&cell, &a.joints); if d < cell.margin - 2e-4 || (cell.margin == 0.0 && d == 0.0) { fail("C12.waypoint_closer_than_safety_distance"); } }
                     if let Some(c) = cell.robot.constraints() { if !c.compliant(&a.joints) { eprintln!("OUTSIDE case {} pool {} flags {} joints {:?}", idx, np, a.flags.bits(), a.joints); fail("C12.waypoint_outside_limits"); } }
                 }
                 // (b) starts at the given start configuration
@@ -125,9 +172,14 @@ pub fn main(tier: &str, seed: u64, n_override: Option<u64>) {
                         let t = cell.robot.forward(&a.joints).translation.vector;
                         let dmin = poly.windows(2).map(|w| seg_dist(&t, &w[0], &w[1])).fold(f64::INFINITY, f64::min);
                         if dmin > 1e-5 { fail("C12.cartesian_waypoint_off_the_segment"); }
+                        // ... and its orientation on the geodesic between the orientations of the two poses it interpolates
+                        let rw = cell.robot.forward(&a.joints).rotation;
+                        let rmin = key.windows(2).filter(|w| seg_dist(&t, &w[0].translation.vector, &w[1].translation.vector) <= 1e-5)
+                            .map(|w| off_geodesic(&w[0].rotation, &w[1].rotation, &rw)).fold(f64::INFINITY, f64::min);
+                        if rmin > 1e-4 { fail("C12.cartesian_waypoint_orientation_off_the_interpolation"); }
                     }
                     if i > 0 && a.flags.contains(PathFlags::LIN_INTERP) && path[i - 1].flags.intersects(PathFlags::LIN_INTERP | PathFlags::LAND | PathFlags::TRACE) {
-                        let c = transition_costs(&path[i - 1].joints, &a.joints, &pl.transition_coefficients);
+                        let c = ref_cost(&path[i - 1].joints, &a.joints, &pl.transition_coefficients);
                         if c > pl.max_transition_cost + 1e-9 { fail("C12.transition_cost_exceeded"); }
                     }
                 }
